@@ -168,6 +168,9 @@ func (p c11) Exec(c *fw.Ctx, u *fw.Unit) {
 	c.Eval()
 	inner := req.String()
 	c.Step(func() string { return inner })
+	if c.Res().Evals%4 == 0 {
+		poison(req.Fam, false)
+	}
 	o := req.call()
 	if !wellFormed(c, req.entryName(), inner, &o) {
 		return
